@@ -89,22 +89,21 @@ def render(cfg, comp):
     """comp: dict(label, surface(bool), sgroup, tokens=[(sym, count)], charge) -> (name, spans[(start,end,sym)])"""
     name = ""
     spans = []
+    items = []          # (symbol text, digit run): the item list of C08.name_roundtrip
 
-    def put(sym, text=None):
+    def put(sym, text=None, digits=""):
         nonlocal name
         t = text if text is not None else sym
         spans.append((len(name), len(name) + len(t), sym))
-        name += t
+        items.append([t, digits])
+        name += t + digits
     if comp.get("surface"):
-        put(cfg["surface"])
-        if comp.get("sgroup"):
-            name += str(comp["sgroup"])
+        put(cfg["surface"], digits=str(comp["sgroup"]) if comp.get("sgroup") else "")
     if comp.get("label"):
         put(comp["label"], unescape(comp["label"]))
     for sym, cnt in comp["tokens"]:
-        put(sym)
-        if cnt != 1:
-            name += str(cnt)
+        put(sym, digits=str(cnt) if cnt != 1 else "")
+    comp["_items"] = items
     ch = comp.get("charge", 0)
     name += "+" * ch if ch > 0 else "-" * (-ch)
     return name, spans
@@ -177,7 +176,16 @@ def flush(res, model, cfg_name, cfg, batch):
     configure(cfg)
     impl = [impl_parse(cfg, n) for n in names]
     mods = model_parse(model, cfg, names) if model is not None else [None] * len(names)
-    for (cn, name, comp, spans), (i, sobj), m in zip(batch, impl, mods):
+    # the premises of C08.name_roundtrip and the abstract result it equates the parser with
+    spec = {}
+    if model is not None:
+        idx = [k for k, b in enumerate(batch) if b[2] is not None and not b[2].get("skip") and "_items" in b[2]]
+        if idx:
+            rep = model.call("sp.items", cfg["elements"], cfg["pseudo"], [[k, v] for k, v in cfg["repl"].items()], cfg["grain"], cfg["surface"],
+                             [[batch[k][1], batch[k][2]["_items"]] for k in idx])
+            for k, r in zip(idx, rep):
+                spec[k] = r
+    for bk, ((cn, name, comp, spans), (i, sobj), m) in enumerate(zip(batch, impl, mods)):
         case = {"kind": "c08", "config": cfg_name, "name": name}
         res.count(f"config={cfg_name}")
         res.count("impl:" + ("rejects" if i[0] == "err" else "accepts"))
@@ -194,7 +202,25 @@ def flush(res, model, cfg_name, cfg, batch):
             res.count("fixed-name(correspondence only)")
             res.case(("c08", cfg_name, name), nontrivial=True)
             continue
-        if not unambiguous(cfg, name, spans):
+        unamb = unambiguous(cfg, name, spans)
+        if bk in spec:
+            wf, pn_ok, items_ok, unamb_m, sres = spec[bk]
+            if (unamb_m == "1") != unamb:
+                res.corr_disagreements += 1
+                res.violation("correspondence", f"premise `unambiguous` of name_roundtrip on {name!r} under {cfg_name}: model {unamb_m}, harness {unamb}", case)
+            if wf == "1" and pn_ok == "1" and items_ok == "1" and unamb_m == "1":
+                res.count("theorem-instance(name_roundtrip premises hold)")
+                if sres[0] == "err":
+                    agree = i[0] == "err" and i[1] == sres[1]
+                else:
+                    agree = (i[0] == "ok" and list(i[2]) == [(k, int(v)) for k, v in sres[1]]
+                             and i[3] == (None if sres[2] == "none" else int(sres[2])) and i[4] == (None if sres[3] == "none" else int(sres[3])))
+                if not agree:
+                    res.corr_disagreements += 1
+                    res.violation("correspondence", f"C08.name_roundtrip instance: Species({name!r}) under {cfg_name} gives {i[:5]}, the item fold gives {sres}", case)
+            else:
+                res.count(f"theorem-premise-fails(wf={wf},name={pn_ok},items={items_ok},unambiguous={unamb_m})")
+        if not unamb:
             res.count("outside-hypothesis(ambiguous rendering)")
             res.case(("c08", cfg_name, name), nontrivial=False)
             continue
@@ -298,6 +324,23 @@ def pair_check(res, model, cfg_name, cfg, rng):
     res.count("eq/hash pairs", len(pairs))
 
 
+def electron_spellings(res, cfg_name, cfg):
+    """every documented spelling of the electron is the electron: charge -1, no elements counted twice, all equal"""
+    configure(cfg)
+    ref = None
+    for nm in ["e-", "E-", "e", "E"]:
+        i, s = impl_parse(cfg, nm)
+        case = {"kind": "c08-electron", "config": cfg_name, "name": nm}
+        if i[0] != "ok":
+            continue
+        if not i[11] or i[5] != -1:
+            res.violation("oracle", f"Species({nm!r}) under {cfg_name}: is_electron={i[11]}, charge={i[5]}; the electron spelling {nm!r} must be the electron with charge -1", case)
+        elif ref is not None and not (s == ref and hash(s) == hash(ref)):
+            res.violation("oracle", f"Species({nm!r}) and Species({ref.name!r}) under {cfg_name} are both the electron but compare/hash differently", case)
+        ref = ref or s
+        res.case(("c08-electron", cfg_name, nm), nontrivial=True)
+
+
 def run(res, info):
     rng = random.Random(res.seed * 7919 + 8)
     model = fw.Model() if info["ok"] else None
@@ -326,6 +369,7 @@ def run(res, info):
             batch.append((cfg_name, nm, {"tokens": [], "skip": True}, [(0, 0, "?")]))
         flush(res, model, cfg_name, cfg, batch)
         pair_check(res, model, cfg_name, cfg, rng)
+        electron_spellings(res, cfg_name, cfg)
     if model:
         model.close()
 
